@@ -336,12 +336,12 @@ impl Zone {
         let ce = self.closest_encloser(name);
         let mut v = Vec::new();
         if self.nsec3.is_some() {
-            if let Some(p) = self.match_proof("ce", &ce) {
-                v.push(p);
-            }
             let nc = self.next_closer(name, &ce);
             if let Some(p) = self.cover_proof("nx", &nc) {
                 v.push(p);
+            }
+            if let Some(p) = self.match_proof("ce", &ce) {
+                Self::push_unique(&mut v, p);
             }
         } else if let Some(p) = self.cover_proof("nx", name) {
             v.push(p);
@@ -365,9 +365,23 @@ impl Zone {
                 Self::push_unique(out, p);
                 return;
             }
-            // NSEC3 opt-out: no record for this (insecure delegation) name
-            let (_, v) = self.nx_proofs(name);
-            for p in v {
+            // NSEC3 opt-out: no record for this (insecure delegation) name,
+            // nor possibly for empty non-terminals above it: closest
+            // *provable* encloser + the Opt-Out record covering the next closer
+            let mut ce: N = name.clone();
+            while ce != self.apex {
+                ce = ce.parent().map(|p| p.to_name::<Bytes>()).unwrap_or_else(N::root);
+                if self.match_proof("ce", &ce).is_some() {
+                    break;
+                }
+            }
+            // (one record may play both parts: it then carries the role of
+            // the covering record, the one the adversary's rewrites aim at)
+            let nc = self.next_closer(name, &ce);
+            if let Some(p) = self.cover_proof("nx", &nc) {
+                Self::push_unique(out, p);
+            }
+            if let Some(p) = self.match_proof("ce", &ce) {
                 Self::push_unique(out, p);
             }
         } else if let Some(p) = self.cover_proof("nd", name) {
@@ -454,6 +468,12 @@ pub enum Shape {
     InsecureLeaf3,
     Secure4,
     InsecureLeaf4,
+    /// the leaf zone is delegated below an empty non-terminal of tld that
+    /// sorts directly after the tld apex ("0") / after an ordinary name ("m")
+    EntApexS,
+    EntApexI,
+    EntNameS,
+    EntNameI,
 }
 
 pub fn parse_shape(s: &str) -> Shape {
@@ -462,6 +482,10 @@ pub fn parse_shape(s: &str) -> Shape {
         "insecure3" => Shape::InsecureLeaf3,
         "secure4" => Shape::Secure4,
         "insecure4" => Shape::InsecureLeaf4,
+        "entapex_s" => Shape::EntApexS,
+        "entapex_i" => Shape::EntApexI,
+        "entname_s" => Shape::EntNameS,
+        "entname_i" => Shape::EntNameI,
         _ => panic!("shape {}", s),
     }
 }
@@ -482,7 +506,7 @@ fn a(owner: &N, ip: &str) -> Rec {
 fn leaf_content(apex: &N) -> Vec<Rec> {
     let www = sub("www", apex);
     let alias = sub("alias", apex);
-    vec![
+    let mut v = vec![
         a(&www, "192.0.2.1"),
         a(&sub("*.wild", apex), "192.0.2.2"),
         rec(&alias, D::Cname(Cname::new(www.clone()))),
@@ -492,7 +516,13 @@ fn leaf_content(apex: &N) -> Vec<Rec> {
         a(&sub("deep.ent", apex), "192.0.2.3"),
         rec(&sub("dn", apex), D::Dname(Dname::new(sub("tgt", apex)))),
         a(&sub("host.tgt", apex), "192.0.2.5"),
-    ]
+    ];
+    // two delegation points without a child zone in this world: one with a
+    // DS RRset (always in the NSEC3 chain) and one without
+    let dk = new_key(&sub("deleg", apex));
+    v.extend(deleg(&sub("deleg", apex), Some(&dk)));
+    v.extend(deleg(&sub("ideleg", apex), None));
+    v
 }
 
 fn deleg(child: &N, key: Option<&Key>) -> Vec<Rec> {
@@ -507,10 +537,15 @@ impl World {
     pub fn build(shape: Shape, denial: Denial) -> World {
         let now = Timestamp::now().into_int();
         let four = matches!(shape, Shape::Secure4 | Shape::InsecureLeaf4);
-        let leaf_secure = matches!(shape, Shape::Secure3 | Shape::Secure4);
+        let leaf_secure =
+            matches!(shape, Shape::Secure3 | Shape::Secure4 | Shape::EntApexS | Shape::EntNameS);
         let root = N::root();
         let tld = nm("tld.");
-        let zone = nm("zone.tld.");
+        let zone = match shape {
+            Shape::EntApexS | Shape::EntApexI => nm("zone.0.tld."),
+            Shape::EntNameS | Shape::EntNameI => nm("zone.m.tld."),
+            _ => nm("zone.tld."),
+        };
         let subz = nm("sub.zone.tld.");
         let other = nm("other.tld.");
         let plain = nm("plain.tld.");
@@ -893,6 +928,32 @@ pub fn apply(w: &World, resp: &mut Resp, st: &AdvStep) {
                 }
             }
         }
+        a if a.starts_with("ReplayAncestor") => {
+            // NXDOMAIN ("Nx") or NODATA ("Nd") for a name below a DNAME owner
+            // or a zone cut, "proven" with the genuine, validly signed
+            // NSEC/NSEC3 of that ancestor (RFC 4035 5.4, RFC 6840 4.1: such a
+            // record proves nothing about names below it)
+            let z = w.zone(w.leaf);
+            let anc = ancestor_of(a, &z.apex);
+            let qn = sub("x", &anc);
+            let star = sub("*", &anc);
+            let mut sets = vec![z.soa()];
+            if z.nsec3.is_some() {
+                if let Some(p) = z.match_proof("ce", &anc) {
+                    sets.push(p);
+                }
+                if let Some(p) = z.cover_proof("nx", &qn) {
+                    Zone::push_unique(&mut sets, p);
+                }
+                if let Some(p) = z.cover_proof("wc", &star) {
+                    Zone::push_unique(&mut sets, p);
+                }
+            } else if let Some(p) = z.match_proof("nx", &anc) {
+                sets.push(p);
+            }
+            resp.sets = sets;
+            resp.rcode = if a.contains("Nx") { Rcode::NXDOMAIN } else { Rcode::NOERROR };
+        }
         "StripProof" => {
             resp.sets.retain(|s| !is_proof(&s.role));
         }
@@ -1132,6 +1193,9 @@ pub fn question(w: &World, qk: &str, plan: &[AdvStep]) -> (N, Rtype) {
     if plan.iter().any(|s| s.act == "CnameLoop") {
         return (sub("loop1", leaf), Rtype::A);
     }
+    if let Some(s) = plan.iter().find(|s| s.act.starts_with("ReplayAncestor")) {
+        return (sub("x", &ancestor_of(&s.act, leaf)), Rtype::A);
+    }
     match qk {
         "positive" => (sub("www", leaf), Rtype::A),
         "wildcard" => (sub("x.wild", leaf), Rtype::A),
@@ -1143,6 +1207,17 @@ pub fn question(w: &World, qk: &str, plan: &[AdvStep]) -> (N, Rtype) {
         "dname" => (sub("host.dn", leaf), Rtype::A),
         "dnamex" => (sub("www.dn", &w.zone("plain").apex), Rtype::A),
         _ => panic!("qk {}", qk),
+    }
+}
+
+/// the delegation point / DNAME owner whose genuine proof record is replayed
+fn ancestor_of(act: &str, leaf: &N) -> N {
+    if act.ends_with("Dname") {
+        sub("dn", leaf)
+    } else if act.ends_with("CutIns") {
+        sub("ideleg", leaf)
+    } else {
+        sub("deleg", leaf)
     }
 }
 
